@@ -65,7 +65,7 @@ Init ==
   /\ cl = [c \in Clients |-> ClientInit]
   /\ fb = FaultBudget
   /\ tb = TrigBudget
-  /\ script = [c \in Clients |-> [start |-> "pre", sess |-> <<>>, lf |-> "ok"]]
+  /\ script = [c \in Clients |-> [start |-> "pre", pre |-> "none", sess |-> <<>>, lf |-> "ok"]]
   /\ obs = ObsStep(ObsInit, ResetEvent(cfg))
 
 Emitting(evs) == obs' = ObsFold(obs, evs, {})
@@ -327,7 +327,7 @@ CleanupExit(c) ==
   /\ UNCHANGED <<cfg, co, fb, tb, script, obs>>
 
 \* an OffsetCommit request of the session's offset manager carrying every dirty partition
-CommitReq(c, k, nextpc) ==
+CommitReq(c, k, final) ==
   LET x == cl[c]
       gen == IF Bug = "stale_commit_identity" THEN x.sgen - 1 ELSE x.sgen
       v == IF k = "ok" THEN Verdict(co, x.sid, x.sgen, "commit") ELSE k
@@ -335,7 +335,9 @@ CommitReq(c, k, nextpc) ==
       blocks == [i \in 1..Len(SeqOfParts(x.dirty)) |-> <<SeqOfParts(x.dirty)[i], x.mk[SeqOfParts(x.dirty)[i]]>>]
       g0 == IF k = "unknown" THEN Remove(co, x.sid) ELSE co IN
   /\ co' = IF ok THEN [g0 EXCEPT !.store = [p \in Parts |-> IF p \in x.dirty THEN x.mk[p] ELSE @[p]]] ELSE g0
-  /\ cl' = [cl EXCEPT ![c].dirty = IF ok THEN {} ELSE @, ![c].pc = nextpc(ok), ![c].ftry = @ + 1]
+  /\ cl' = [cl EXCEPT ![c].dirty = IF ok THEN {} ELSE @,
+                      ![c].pc = IF ~final THEN @ ELSE IF ok \/ x.ftry >= 1 THEN "hbstop" ELSE "final",
+                      ![c].ftry = IF final THEN @ + 1 ELSE @]
   /\ Emitting(<<[ev |-> "commit", c |-> c, mid |-> x.sid, gen |-> gen, err |-> v, blocks |-> blocks, applied |-> ok]>>)
   /\ script' = RecC(script, c, k)
 
@@ -343,7 +345,7 @@ AutoCommit(c) ==
   LET x == cl[c] IN
   /\ cfg.auto = "fast" /\ x.pc = "run" /\ x.dirty # {}
   /\ \E k \in {"ok"} \cup (IF fb > 0 THEN CommitKinds ELSE {}) :
-       /\ CommitReq(c, k, LAMBDA ok : "run")
+       /\ CommitReq(c, k, FALSE)
        /\ fb' = IF k = "ok" THEN fb ELSE fb - 1
   /\ UNCHANGED <<cfg, tb>>
 
@@ -355,7 +357,7 @@ FinalCommit(c) ==
      THEN /\ cl' = [cl EXCEPT ![c].pc = "hbstop"]
           /\ UNCHANGED <<co, fb, script, obs>>
      ELSE \E k \in {"ok"} \cup (IF fb > 0 THEN CommitKinds ELSE {}) :
-          /\ CommitReq(c, k, LAMBDA ok : IF ok \/ x.ftry >= 1 THEN "hbstop" ELSE "final")
+          /\ CommitReq(c, k, TRUE)
           /\ fb' = IF k = "ok" THEN fb ELSE fb - 1
   /\ UNCHANGED <<cfg, tb>>
 
@@ -398,7 +400,7 @@ TrigPoint(c) ==
     [] x.pc = "incleanup" -> "cleanup"
     [] OTHER -> "none"
 
-CanTrig(c) == tb > 0 /\ (cl[c].pc = "idle" \/ cl[c].trig = 0) /\ TrigPoint(c) # "none"
+CanTrig(c) == tb > 0 /\ cl[c].trig = 0 /\ TrigPoint(c) # "none"
 
 TrigCancel(c) ==
   LET x == cl[c]
@@ -407,7 +409,7 @@ TrigCancel(c) ==
   /\ ~(x.pc = "setup")
   /\ cl' = [cl EXCEPT ![c].pcancel = TRUE, ![c].trig = 1, ![c].ctx = IF x.pc \in SessionPcs THEN TRUE ELSE @]
   /\ Emitting(<<[ev |-> "cancel", c |-> c]>>)
-  /\ script' = IF at = "pre" THEN [script EXCEPT ![c].start = "cancelled"] ELSE RecTrig(script, c, "cancel", at)
+  /\ script' = IF at = "pre" THEN [script EXCEPT ![c].pre = "cancel"] ELSE RecTrig(script, c, "cancel", at)
   /\ tb' = tb - 1
   /\ UNCHANGED <<cfg, co, fb>>
 
@@ -418,7 +420,7 @@ TrigClose(c) ==
   /\ ~(x.pc = "setup")
   /\ cl' = [cl EXCEPT ![c].closed = "closing", ![c].trig = 1]
   /\ Emitting(<<[ev |-> "close_call", c |-> c]>>)
-  /\ script' = IF at = "pre" THEN [script EXCEPT ![c].start = "closed"] ELSE RecTrig(script, c, "close", at)
+  /\ script' = IF at = "pre" THEN [script EXCEPT ![c].pre = "close"] ELSE RecTrig(script, c, "close", at)
   /\ tb' = tb - 1
   /\ UNCHANGED <<cfg, co, fb>>
 
@@ -451,7 +453,6 @@ CloseNormal(c) ==
 CloseLeave(c) ==
   LET x == cl[c] IN
   /\ x.pc = "idle" /\ x.closed = "closing"
-  /\ x.calls = 0 => ~ENABLED ConsumeCall(c)
   /\ IF x.mid = ""
      THEN /\ co' = RemoveAll(co, MidsOf(co, c))
           /\ Emitting(<<[ev |-> "close_ret", c |-> c, err |-> ""]>>)
@@ -487,7 +488,7 @@ NoViolation == obs.bad = {}
 \* pc-based forms of the life-cycle clauses
 CleanupAfterClaims ==
   \A c \in Clients : cl[c].pc \in {"incleanup", "final", "hbstop"} =>
-     \A p \in cl[c].claims : cl[c].cst[p] \in {"ret", "skip", "none"} /\ (cl[c].cst[p] = "none" => FALSE)
+     \A p \in cl[c].claims : cl[c].cst[p] \in {"ret", "skip"}
 QuickExitOnlyWhenEnding ==
   \A c \in Clients : \A p \in Parts : cl[c].cst[p] = "skip" => cl[c].ctx
 \* two members whose identity the coordinator still accepts never run claims on the same partition
@@ -499,15 +500,26 @@ StoreNotAhead == \A p \in Parts : co.store[p] = cfg.committed[p + 1] \/ co.store
 \* the identity a session uses is the one the coordinator issued to that client
 SessionIdentityIssued ==
   \A c \in Clients : cl[c].pc \in SessionPcs => cl[c].sid \in DOMAIN co.own /\ co.own[cl[c].sid] = c /\ cl[c].sgen <= co.gen
-HeartbeatStoppedOutside == \A c \in Clients : cl[c].pc \in {"idle", "join", "joinwait", "sync", "syncwait", "done"} => cl[c].hb = "off"
-    \/ cl[c].pc \notin {"idle", "done"}
+HeartbeatStoppedOutside == \A c \in Clients : cl[c].pc \notin SessionPcs => cl[c].hb # "on"
 
 Scenario ==
   [np |-> NP, loglen |-> LogLen, logstart |-> 0, initial |-> cfg.initial, auto |-> cfg.auto, committed |-> cfg.committed,
    clients |-> [i \in 1..Len(SeqOfClients(Clients)) |->
                   LET c == SeqOfClients(Clients)[i] IN
-                  [c |-> c, start |-> script[c].start, nsess |-> cl[c].calls, sess |-> script[c].sess, lf |-> script[c].lf]]]
+                  [c |-> c, start |-> script[c].start, pre |-> script[c].pre, nsess |-> cl[c].calls, sess |-> script[c].sess, lf |-> script[c].lf]]]
 Emitted == (Emit /\ AllDone) => PrintT(<<"CASE", ToJson(Scenario)>>)
 
 View == <<cfg, co, cl, fb, tb, obs>>
+
+(* constant values that a .cfg file cannot spell *)
+H(m, n, k) == [mode |-> m, n |-> n, mark |-> k]
+HandlersA == {H("early", 1, 1), H("drain", 1, 2), H("ctxwait", 0, 0)}
+HandlersB == {H("early", 0, 0), H("early", 1, 0), H("early", 2, 2), H("drain", 0, 2), H("drain", 2, 1), H("ctxwait", 1, 1)}
+HandlersOne == {H("drain", 1, 2)}
+InitOldest == {-2}
+InitNewest == {-1}
+InitBoth == {-2, -1}
+CC1 == {<<-1>>, <<1>>, <<9>>}
+CC2 == {<<-1, 1>>}
+CC2all == {<<-1, 1>>, <<2, 9>>, <<0, -1>>}
 =============================================================================
